@@ -326,10 +326,51 @@ def p_codec(o):
                      "serde_json and parity-scale-codec primitives are correct"]
 
 
+def p_retain(o):
+    exe = build_rt()
+    o.replay_base = {"sub": "retain"}
+    rt_pass(o, exe, "retain", ["--cases", sizes(o.tier, 400_000, 12_000_000), "--max-secs", sizes(o.tier, 60, 420)], timeout=sizes(o.tier, 300, 1500),
+            crash_is_violation=("C10/crash", "retain crashed the process (stack overflow / abort) on a well-formed registry"))
+    o.rule = ("(well-formed RegGen registry, filter) pairs; filters: none, all, single id, last, pair, random subsets of several densities, only leaves, only roots. "
+              "Non-trivial: filter accepts something, reachability adds ids beyond the accepted ones, and something is dropped. distinct = distinct (registry encoding, accepted set).")
+    o.need(["reachable_only_through_type_param", "self_reference_retained", "second_retain_checked", "filter_none", "filter_all", "filter_single", "filter_random-subset", "filter_leaves", "filter_roots"]
+           + ["retained_def_" + k for k in ("composite", "variant", "sequence", "array", "tuple", "primitive", "compact", "bitsequence")])
+    o.assumptions = ["reference reachability + renaming (harness/vcommon/src/refretain.rs) written from the property text; the new numbering is not pinned",
+                     "filters are pure functions of the id"]
+
+
+def p_table(o):
+    exe = build_rt()
+    o.replay_base = {"sub": "table"}
+    rt_pass(o, exe, "table", ["--cases", sizes(o.tier, 400_000, 12_000_000), "--max-secs", sizes(o.tier, 60, 360)], timeout=sizes(o.tier, 300, 1500))
+    o.rule = ("random operation histories (<=200 ops) over tiny value alphabets (2-8 values) on Interner<u8>, Interner<String> and PortableRegistryBuilder "
+              "(pool of RegGen types, self-referencing registrations through next_type_id). Every history with >=1 op is non-trivial; distinct = distinct op sequences.")
+    o.need(["intern_new", "intern_duplicate", "get_hit", "get_miss", "resolve_in_range", "resolve_out_of_range", "elements_compared",
+            "register_new", "register_duplicate", "register_self_reference", "builder_get_hit", "builder_get_out_of_range", "finish_calls", "next_type_id_calls"])
+    o.extra["hooks"] = "see hook_invariant_checks counter (0 => hooks unavailable on this tree)"
+    o.assumptions = ["list model: Vec + linear search", "Symbol ids observed through into_untracked().id"]
+
+
+def p_ident(o):
+    exe = build_rt()
+    o.replay_base = {"sub": "ident"}
+    rt_pass(o, exe, "ident", ["--cases", sizes(o.tier, 300_000, 3_000_000), "--maxlen", sizes(o.tier, 6, 7)], timeout=sizes(o.tier, 300, 1500))
+    o.rule = ("exhaustive: every string of length <= L (L=6 quick, 7 thorough) over the class-representative alphabet {a,Z,_,7,r,#,:,space,-,e-acute} as a single segment; "
+              "every segment list of length <= 3 over a 40-string pool; Path::new over (40 idents x 1649 modules); seeded new_with_replace tables. "
+              "Oracle: explicit DFA for (r#)?[A-Za-z_][A-Za-z0-9_]*. distinct = distinct inputs; all inputs with >=1 segment are non-trivial.")
+    o.extra["exhaustive"] = True
+    o.extra["exhaustive_scope"] = "single segments up to the length bound and segment lists up to 3 over the pool are enumerated completely; replacement tables are sampled"
+    o.need(["accepted", "rejected", "new_accepted", "new_rejected", "accessor_checks", "replace_cases"])
+    o.assumptions = ["identifier DFA (harness/vcommon/src/ident.rs) is the specification of a valid segment", "alphabet is class-representative: one lower, one upper, underscore, digit, the raw-prefix letters, separator, and three invalid classes"]
+
+
 PROPS = {
     "C06": dict(fn=p_codec, level="exploration"),
     "C07": dict(fn=p_codec, level="exploration"),
     "C08": dict(fn=p_codec, level="exploration"),
+    "C10": dict(fn=p_retain, level="exploration"),
+    "C12": dict(fn=p_table, level="exploration"),
+    "C18": dict(fn=p_ident, level="exploration"),
 }
 
 
